@@ -144,6 +144,14 @@ def clock(run, rep, lab):
         if later:
             ok = False
             detail = "time is advanced before the flow step has finished"
+        # "by exactly dt": the increment must not pass through a conversion (real_t(dt) rounds a double dt to single precision)
+        import ast as _ast
+        node = getattr(op, "node", None)
+        val = getattr(node, "value", None)
+        conv = [_ast.unparse(c.func) for c in _ast.walk(val) if isinstance(c, _ast.Call)] if val is not None else []
+        if ok and conv:
+            ok = False
+            detail = "the time increment passes through %s(...): in single precision the clock does not advance by exactly dt" % conv[0]
     rep.ob("C01.d", "%s :: clock" % lab, ok, detail, key="C01.d|%s|%s" % (run.cfg["kind"], detail[:80]), nontrivial=False)
 
 
